@@ -132,7 +132,7 @@ class Exec:
             return
         k = self.counters.get(kind, 0)
         self.counters[kind] = k + 1
-        oid = '%s/%s#%d' % (self.cur.qualname if self.cur else '?', kind, k)
+        oid = '%s%s/%s#%d' % (self.cur.qualname if self.cur else '?', getattr(self, 'case_tag', ''), kind, k)
         if goal is True and expect == 'unsat':
             # trivially true: still counted, discharged syntactically
             pass
@@ -958,6 +958,9 @@ class Exec:
         loc.env['result'] = result
         if self_obj is not None:
             loc.env['self'] = self_obj
+        for cl in c.of('let'):
+            for k2, a in cl.kw.items():
+                loc.env[k2] = self.evs(a, loc)
         for cl in c.of('functional'):       # functional(<result component>, 'name', shape-expr, args...): result is a function of args
             tgt = st.deref(self.evs(cl.args[0], loc))
             name = ast.literal_eval(cl.args[1])
